@@ -760,7 +760,8 @@ Qed.
 Lemma capacity_free_zero_demands st :
   (forall j, ndemand (Path.node_at (pg st) j) = 0) -> 0 <= pinit st <= pcap st -> capacity_free st.
 Proof.
-  intros Hd Hi rest. generalize (pinit st) Hi. induction rest as [|j rest IH]; intros l Hl; [constructor|].
+  intros Hd Hi cs _ _. generalize (cs ++ [O]). clear cs. intros rest.
+  generalize (pinit st) Hi. induction rest as [|j rest IH]; intros l Hl; [constructor|].
   cbn [loads]. rewrite Hd. replace (l - 0) with l by lia. constructor; [exact Hl|apply IH; exact Hl].
 Qed.
 
